@@ -208,7 +208,40 @@ func c13Run(cw *c13World, c c13Case, name string) (sig, msg string, nontrivial b
 					tip = h
 				}
 			}
-			switch st.I % 3 {
+			for _, v := range cw.V {
+				if tips[v.Hash] {
+					tip = v.Hash // prefer the newest delivered vertex of the segment
+				}
+			}
+			switch st.I % 4 {
+			case 3: // an overdrawing parent and its child, child first: the retry path must judge the parent like the direct path
+				if tip == (ref.Hash{}) {
+					continue
+				}
+				ptx := w.MakeTx(3, 1, spice.New(5000000, 0), 0) // user2 never holds that much
+				tw := uint64(0)
+				if tv := w.Arch.V[tip]; tv != nil {
+					tw = tv.Weight // ordinary weights: a heavy vertex would move the node-local weight window
+				}
+				pv := ref.Seal(ptx, tip, tip, tw+1, ptx.CreatedAt, w.Wallets[w.RogueWallet(0)])
+				ctx2 := w.MakeTx(1, 2, spice.New(1, 0), 0)
+				cv := ref.Seal(ctx2, pv.Hash, pv.Hash, tw+2, ctx2.CreatedAt, w.Wallets[w.RogueWallet(1)])
+				invalid = append(invalid, pv.Hash, cv.Hash)
+				c1 := sim.CloneVertex(&cv)
+				if aerr := book.AddLeaf(bg, &c1); !errors.Is(aerr, accountant.ErrParentDoesNotExists) {
+					return "missing-parent-not-reported", fmt.Sprintf("step %d: child of an undelivered parent returned %v", si, aerr), nontrivial, ""
+				}
+				nontrivial = true
+				p1 := sim.CloneVertex(&pv)
+				book.AddLeaf(bg, &p1) // accepted as a tentative tip: it is validated when something builds on it
+				if g := sim.GuardT(sim.CallTimeout, func() error {
+					for k := 0; k < 4 && len(book.VerifParkedList()) > 0; k++ {
+						book.VerifRetryOne(bg)
+					}
+					return nil
+				}); g != nil {
+					return "", "", nontrivial, "retry: " + g.Error()
+				}
 			case 0: // bad sealing signature on a real vertex of V
 				if len(cw.V) == 0 {
 					continue
